@@ -8,7 +8,7 @@ SigPairs(m) == {<<w, SigmaOf(m)[w]>> : w \in WildNames(pat)}
 MatchRec(m) == [bp |-> m.bp, i |-> m.i, n |-> m.n, sg |-> SigPairs(m)]
 GoalRec(gl) ==
   [id |-> gl.id, g |-> gl.g, toks |-> TokStrs(Toks(gl.g, NoDeco)), res |-> Rewrite(gl.g),
-   legal |-> Legal(gl.g), mech |-> MechRewrite(gl.g), bpar |-> BindingNeedsParen(gl.g), gpar |-> GoalNeedsParen(gl.g)]
+   legal |-> Legal(gl.g), mech |-> MechRewrite(gl.g), alts |-> Alternatives(gl.g), bpar |-> BindingNeedsParen(gl.g), gpar |-> GoalNeedsParen(gl.g)]
 Behaviour ==
   [mod |-> mod, src |-> TokStrs(Toks(mod, deco)), deco |-> deco,
    pat |-> pat, patsrc |-> TokStrs(Toks(pat, NoDeco)), exact |-> exact,
